@@ -45,7 +45,23 @@ type op struct {
 	Q   *qspec `json:"q"`
 }
 
+type glock struct {
+	ID  uint64 `json:"id"`
+	O   int    `json:"o"`
+	N   int    `json:"n"`
+	Amt int64  `json:"amt"`
+	Dur int64  `json:"dur"`
+	End int64  `json:"end"` // relative; 0 = not unlocking
+	RR  int    `json:"rr"`  // 0 = ""
+}
+
+type genesis struct {
+	Last  uint64  `json:"last"`
+	Locks []glock `json:"locks"`
+}
+
 type cs struct {
+	Gen    *genesis  `json:"gen"`    // optional: lockup genesis (SetLastLockID + InitializeAllLocks), module account funded accordingly
 	Base   int64     `json:"base"`   // unix ns of relative time 0
 	T0     int64     `json:"t0"`     // first block time (relative, > 0)
 	Denoms []string  `json:"denoms"` // denom index i (1-based) -> Denoms[i-1]
@@ -462,6 +478,8 @@ func (d *drv) apply(o op) error {
 			return errInvalid
 		}
 		return apph.Atomic(d.ctx, func(ctx sdk.Context) error { _, err := ms.BeginUnlockingAll(ctx, msg); return err })
+	case "rebuild":
+		return apph.Atomic(d.ctx, func(ctx sdk.Context) error { d.k.RebuildAccumulationStoreForDenom(ctx, d.denom(o.N)); return nil })
 	case "unlock":
 		return apph.Atomic(d.ctx, func(ctx sdk.Context) error { return d.k.UnlockMaturedLock(ctx, o.ID) })
 	case "withdraw":
@@ -517,6 +535,30 @@ func run(t *testing.T, c cs) (res obs) {
 		if !cs.Empty() {
 			h.Ctx = d.ctx
 			h.FundAcc(d.addr(a), cs)
+		}
+	}
+	if c.Gen != nil {
+		// what the chain's InitGenesis does for the lockup module: bank balances of the module account, then
+		// keeper.InitGenesis = SetLastLockID + InitializeAllLocks
+		locks := []lockuptypes.PeriodLock{}
+		tot := sdk.Coins{}
+		for _, g := range c.Gen.Locks {
+			coins := sdk.Coins{sdk.NewInt64Coin(d.denom(g.N), g.Amt)}
+			rr := ""
+			if g.RR != 0 {
+				rr = d.addr(g.RR).String()
+			}
+			locks = append(locks, lockuptypes.NewPeriodLock(g.ID, d.addr(g.O), rr, time.Duration(g.Dur), d.tm(g.End), coins))
+			tot = tot.Add(coins...)
+		}
+		if !tot.Empty() {
+			h.Ctx = d.ctx
+			h.FundModuleAcc(lockuptypes.ModuleName, tot)
+		}
+		d.k.SetLastLockID(d.ctx, c.Gen.Last)
+		if err := d.k.InitializeAllLocks(d.ctx, locks); err != nil {
+			res.Err = "InitializeAllLocks: " + err.Error()
+			return res
 		}
 	}
 	for _, o := range c.Ops {
